@@ -14,7 +14,7 @@ class C16(PureCheck):
     rule = ("str and FmtStr inputs: layouts of <=2 runs of length 0..3 (quick, + sampled 3-run layouts with runs up to "
             "length 4) / all <=2 runs of length 0..3 + 60k sampled 3-run layouts + 40k sampled layouts with runs up to length 4 (thorough) over "
             "{x, y, space, tab, newline} x {plain, red, bold+on_blue} - formatting changing inside words and inside "
-            "whitespace, empty runs with their own formatting inside/at the edge of whitespace and words, leading/trailing/multiple whitespace, non-ASCII whitespace (U+00A0, U+2028, U+3000, U+2003, 0x1C), no words at all - and columns 1..6; plain str arguments carrying SGR sequences (judged as the parsed value); validated by TLC against "
+            "whitespace, empty runs with their own formatting inside/at the edge of whitespace and words, leading/trailing/multiple whitespace, non-ASCII whitespace (U+00A0, U+2028, U+3000, U+2003, 0x1C), no words at all - and columns 1..6; plain str arguments carrying SGR sequences (judged as the parsed value); a plain prefix + a body whose text was read before; validated by TLC against "
             "the greedy reference wrap of Wrap.tla. distinct_nontrivial = distinct (layout, columns) with >=2 words or a "
             "word longer than the line")
     exhaustive = {"quick": False, "thorough": False}
@@ -64,6 +64,12 @@ class C16(PureCheck):
                 raw += w if code is None else "\x1b[%sm%s\x1b[%sm" % (code, w, rng.choice(["0", "39", "", "0"]))
             for c in (1, 2, 3, 5, 7):
                 yield {"op": "linesplit", "f": {"k": "raw", "v": enc.enc_text(raw)}, "cols": c}
+        # a body whose text was read before, prefixed on the left with a plain str, then wrapped
+        for k in range(200 if tier == "quick" else 4000):
+            runs = [[[ord(ch) for ch in rng.choice(["xy", "x y", "yx ", " x", "xyx y", "y\tx"])], list(rng.choice(ATTS))] for _ in range(rng.choice([1, 2, 3]))]
+            pre = rng.choice(["> ", "-- ", "x", " ", "yx y "])
+            for c in (2, 3, 5):
+                yield {"op": "linesplit", "f": {"k": "p", "v": runs, "pre": enc.enc_text(pre)}, "cols": c}
         k = 0
         for f in pool:
             for c in range(1, 7):
@@ -76,7 +82,13 @@ class C16(PureCheck):
     def execute(self, inp):
         from curtsies.formatstring import linesplit
         ev = dict(inp)
-        if inp["f"]["k"] == "raw":
+        if inp["f"]["k"] == "p":
+            # a value whose text was read before (an earlier wrap of it) gets a plain prefix on its left: "> " + body
+            body = enc.build_fmtstr(inp["f"]["v"])
+            body.s, linesplit(body, 3)
+            x = enc.dec_text(inp["f"]["pre"]) + body
+            ev["f"] = {"k": "f", "v": enc.enc_fmtstr(x)}
+        elif inp["f"]["k"] == "raw":
             from curtsies.formatstring import FmtStr
             x = enc.dec_text(inp["f"]["v"])
             ev["rawf"] = inp["f"]["v"]
